@@ -92,6 +92,8 @@ def run(tier):
         ops = [st.gen_fwd_op(rng, t, inp=u, mode=0, cap=32 * len(u) + 256, argmask=28, cursor=c) for c in range(len(u))]
         cases.append(common.Case("c07-cur%d" % ti, ["HOOK trace 1"], ops, {"table": t}))
     cases += st.wide_cases(rng, 200 if tier == "quick" else 2500, per_table=6, back=True, exact=False, tag="c07w", budget=3000000)
+    # whole calls on composite tables: the model alone computes both position arrays and the cursor (MCALL)
+    cases += st.composite_cases(rng, 120 if tier == "quick" else 3000, per_table=8, tag="c07wc", argmasks=[12, 28, 28, 4, 8, 20, 24])
     calls = st.run_and_trace(exe, cases)
     ntrace = 0
     trace_bad = []
@@ -129,6 +131,9 @@ def run(tier):
     for c in cases:
         if c.fault:
             v.notes.append("fault during C07 run (reported under C01/C02): %s %s" % (c.fault["kind"], c.fault["frame"]))
+    whole_bad = st.compare_whole(calls, dist)
+    v.obligation("correspondence: the model alone (driver + main-pass + stage models) computes the whole result of every call "
+                 "on composite generated tables: output, lengths, outputPos, inputPos, cursor", not whole_bad, "\n".join(whole_bad[:3]))
     v.obligation("correspondence: Lean driver reproduces every recorded call (trace validation)", not trace_bad,
                  "; ".join("%s :: %s" % (k.op[:200], k.trace_detail[:600]) for k in trace_bad[:3]))
     v.cov["traces_validated_against_impl"] = ntrace
